@@ -245,13 +245,17 @@ func queryWorker(prom *Prometheus, queries chan queryRequest) {
 
 func processJob(prom *Prometheus, job queryRequest) queryResult {
 	cacheKey := job.query.CacheKey()
+	verifTrace("take", job.query.Endpoint()+"\x00"+job.query.String(), cacheKey)
 	if prom.cache != nil {
 		if cached, ok := prom.cache.get(cacheKey, job.query.Endpoint()); ok {
+			verifTrace("hit", "", cacheKey)
 			return cached.(queryResult)
 		}
 	}
+	verifTrace("miss", "", cacheKey)
 
 	if !prom.apis.isSupported(job.query.Endpoint()) {
+		verifTrace("unsupported", "", cacheKey)
 		return queryResult{err: ErrUnsupported} // nolint: exhaustruct
 	}
 
@@ -259,10 +263,12 @@ func processJob(prom *Prometheus, job queryRequest) queryResult {
 	prometheusQueriesRunning.WithLabelValues(prom.name, job.query.Endpoint()).Inc()
 
 	prom.rateLimiter.Take()
+	verifTrace("send", "", cacheKey)
 	result := job.query.Run()
 	prometheusQueriesRunning.WithLabelValues(prom.name, job.query.Endpoint()).Dec()
 
 	if result.err != nil {
+		verifTrace("resperr", "", cacheKey)
 		if errors.Is(result.err, context.Canceled) {
 			return result
 		}
@@ -286,9 +292,11 @@ func processJob(prom *Prometheus, job queryRequest) queryResult {
 		return result
 	}
 
+	verifTrace("respok", "", cacheKey)
 	if prom.cache != nil {
 		prom.cache.set(cacheKey, result, job.query.CacheTTL())
 	}
+	verifTrace("set", "", cacheKey)
 
 	return result
 }
